@@ -499,7 +499,7 @@ func init() {
 		RealCode:     []string{"autodiff.AvlTree, AvlNode, AvlIterator (all methods)"},
 		Stubs:        []string{"none (reference model: sorted set of ints)"},
 		Caps:         map[string]int{"ops_per_run": 60, "trees": 3, "live_iterators": 4},
-		QuickRuns:    60000,
+		QuickRuns:    400000,
 		ThoroughRuns: 6000000,
 	})
 }
